@@ -8,6 +8,7 @@
 //	params argdump <file> ARG...           (child of a step) JSON list of its arguments
 //	params catfile <out> [<err>]           (child of a step) copies file <out> to stdout (then <err> to stderr)
 //	params failonce <marker> <sub> ...     (child of a step) first call: create marker, exit 1; later: run sub-mode
+//	params catattempt <counter> <f0> <f>   (child of a step) first call: copy <f0> to stdout, exit 1; later: copy <f>
 //
 // Streams:
 //
@@ -21,6 +22,8 @@
 //	       saw - the re-load happens in a process where the variable has another value
 //	restart the real `start -p` command on a DAG that is still running (a sleeping step), then the real `restart`
 //	       command in another process whose environment has changed: the restarted run must see the first run's values
+//	retrycmd the real `start -p` command on a DAG whose second step fails once, then the real `retry --req <id>`
+//	       command in another process: the retried steps must see the first run's values
 //	cli    the real `start -p` command (cmd.Execute) with the parameter string wrapped in quotes as the API client
 //	       does (client.go: fmt.Sprintf(`"%s"`, ...)); start.go strips exactly that pair
 package main
@@ -72,6 +75,7 @@ type Case struct {
 	OutB64 string `json:"out_b64,omitempty"`
 	ErrB64 string `json:"err_b64,omitempty"`
 	Size   int    `json:"size,omitempty"`
+	Out0   string `json:"out0_b64,omitempty"` // out: the producer is retried once; its failed first attempt printed this
 	// observations
 	Err      string            `json:"err,omitempty"`
 	Params   []string          `json:"params"`             // DAG.Params of the (first) load
@@ -177,6 +181,24 @@ func childMain(args []string) {
 				_, _ = os.Stderr.Write(e)
 			}
 		}
+	case "catattempt":
+		first := false
+		if _, err := os.Stat(args[1]); err != nil {
+			_ = os.WriteFile(args[1], []byte("x"), 0644)
+			first = true
+		}
+		f := args[3]
+		if first {
+			f = args[2]
+		}
+		b, err := os.ReadFile(f)
+		if err != nil {
+			os.Exit(3)
+		}
+		_, _ = os.Stdout.Write(b)
+		if first {
+			os.Exit(1)
+		}
 	case "failonce":
 		if _, err := os.Stat(args[1]); err != nil {
 			_ = os.WriteFile(args[1], []byte("x"), 0644)
@@ -200,6 +222,8 @@ type Job struct {
 	Env    []string `json:"env,omitempty"`   // extra environment of the worker
 	Extra  []string `json:"extra,omitempty"` // further variable names the envdump children report
 	Sleep  bool     `json:"sleep,omitempty"` // the DAG ends with a step that sleeps (so that it can be restarted)
+	Fail1  bool     `json:"fail1,omitempty"` // the DAG: s0 reports, s1 fails on its first call and reports afterwards, s2 reports
+	ReqID  string   `json:"req,omitempty"`
 }
 
 type JobResult struct {
@@ -247,7 +271,7 @@ func schedule(d *dag.DAG, g *scheduler.ExecutionGraph, dir string) (*scheduler.S
 	return sc, sc.Status(g).String()
 }
 
-var sleepStep bool
+var sleepStep, failFirst bool
 
 func envDag(dir string, names []string, npos int, extra ...string) string {
 	me := self()
@@ -271,6 +295,12 @@ func envDag(dir string, names []string, npos int, extra ...string) string {
 	if sleepStep {
 		y = strings.Replace(y, "handlerOn:", "  - name: s3\n    command: sleep 1\n    depends:\n      - s2\nhandlerOn:", 1)
 	}
+	if failFirst {
+		y = "name: c11env\nsteps:\n" +
+			"  - name: s0\n    command: " + me + " envdump " + filepath.Join(dir, "p-first.json") + " " + strings.Join(all, " ") + "\n" +
+			"  - name: s1\n    command: " + me + " failonce " + filepath.Join(dir, "marker") + " envdump " + filepath.Join(dir, "p-env.json") + " " + strings.Join(all, " ") + "\n    depends:\n      - s0\n" +
+			"  - name: s2\n    command: " + me + " argdump " + filepath.Join(dir, "p-arg.json") + " " + strings.Join(dollars, " ") + "\n    depends:\n      - s1\n"
+	}
 	f := filepath.Join(dir, "c11env.yaml")
 	if err := os.WriteFile(f, []byte(y), 0644); err != nil {
 		panic(err)
@@ -278,11 +308,15 @@ func envDag(dir string, names []string, npos int, extra ...string) string {
 	return f
 }
 
-func outDag(dir string, withErr bool) string {
+func outDag(dir string, withErr bool, retried bool) string {
 	me := self()
 	cat := me + " catfile " + filepath.Join(dir, "out.bin")
 	if withErr {
 		cat += " " + filepath.Join(dir, "err.bin")
+	}
+	if retried {
+		cat = me + " catattempt " + filepath.Join(dir, "prodmark") + " " + filepath.Join(dir, "out0.bin") + " " + filepath.Join(dir, "out.bin") +
+			"\n    retryPolicy:\n      limit: 1\n      intervalSec: 0"
 	}
 	y := "name: c11out\nsteps:\n" +
 		"  - name: prod\n    command: " + cat + "\n    output: OUT\n" +
@@ -321,9 +355,18 @@ func workerMain() {
 		os.Stdout, os.Stderr = devnull, devnull
 		_ = bdcmd.Execute()
 		os.Exit(0)
+	case "retrycmd":
+		// blackdagger retry --req <id> file
+		os.Setenv("HOME", j.Dir)
+		os.Setenv("BLACKDAGGER_HOME", filepath.Join(j.Dir, ".blackdagger"))
+		os.Args = []string{"blackdagger", "retry", "--req", j.ReqID, filepath.Join(j.Dir, "c11env.yaml")}
+		devnull, _ := os.OpenFile(os.DevNull, os.O_WRONLY, 0)
+		os.Stdout, os.Stderr = devnull, devnull
+		_ = bdcmd.Execute()
+		os.Exit(0)
 	case "cli":
 		// the real command line entry point: blackdagger start -p "<params>" file
-		sleepStep = j.Sleep
+		sleepStep, failFirst = j.Sleep, j.Fail1
 		f := envDag(j.Dir, j.Names, j.NPos, j.Extra...)
 		os.Setenv("HOME", j.Dir)
 		os.Setenv("BLACKDAGGER_HOME", filepath.Join(j.Dir, ".blackdagger"))
@@ -372,7 +415,7 @@ func workerMain() {
 			res.Probes[n] = readProbe(filepath.Join(j.Dir, "p-"+n+".json"))
 		}
 	case "outA":
-		f := outDag(j.Dir, j.NPos == 1)
+		f := outDag(j.Dir, j.NPos == 1, j.Fail1)
 		d, err := dag.Load("", f, "")
 		if err != nil {
 			res.Err = err.Error()
@@ -619,6 +662,45 @@ func execCase(c *Case, base string) {
 				c.Probes["re-"+k] = v
 			}
 		}
+	case "retrycmd":
+		c.S = render(c.Items)
+		dir, err := os.MkdirTemp(base, "t")
+		if err != nil {
+			panic(err)
+		}
+		defer os.RemoveAll(dir)
+		names, npos := namesOf(c.Items)
+		c.Probes = map[string]*Probe{}
+		_, hang := runJob(Job{Mode: "cli", Dir: dir, Params: `"` + c.S + `"`, Names: names, NPos: npos, Fail1: true,
+			Env: []string{"C11VAR=alpha"}, Extra: posEqNames(c.Items)}, 30*time.Second)
+		c.Hang = hang
+		c.Probes["first"] = readProbe(filepath.Join(dir, "p-first.json"))
+		os.Remove(filepath.Join(dir, "p-first.json"))
+		// the request id and the recorded parameters of the failed run, from its history file
+		req := ""
+		if fs, _ := filepath.Glob(filepath.Join(dir, ".blackdagger", "data", "*", "*.dat")); len(fs) > 0 {
+			if b, err := os.ReadFile(fs[len(fs)-1]); err == nil {
+				lines := strings.Split(strings.TrimSpace(string(b)), "\n")
+				var st struct {
+					RequestId string
+					Params    string
+				}
+				if json.Unmarshal([]byte(lines[len(lines)-1]), &st) == nil {
+					req, c.Recorded = st.RequestId, st.Params
+				}
+			}
+		}
+		if req == "" {
+			c.Err = "no history of the first run"
+			return
+		}
+		_, hang2 := runJob(Job{Mode: "retrycmd", Dir: dir, ReqID: req, Env: []string{"C11VAR=beta"}}, 30*time.Second)
+		if hang2 {
+			c.Hang = true
+		}
+		for _, n := range []string{"env", "arg"} {
+			c.Probes["re-"+n] = readProbe(filepath.Join(dir, "p-"+n+".json"))
+		}
 	case "restart":
 		c.S = render(c.Items)
 		dir, err := os.MkdirTemp(base, "r")
@@ -695,7 +777,11 @@ func execCase(c *Case, base string) {
 		if len(ob) > 65536 {
 			wd = 4 * time.Second
 		}
-		r, hang := runJob(Job{Mode: "outA", Dir: dir, NPos: withErr, Status: stf}, wd)
+		if c.Out0 != "" {
+			o0, _ := base64.StdEncoding.DecodeString(c.Out0)
+			_ = os.WriteFile(filepath.Join(dir, "out0.bin"), o0, 0644)
+		}
+		r, hang := runJob(Job{Mode: "outA", Dir: dir, NPos: withErr, Status: stf, Fail1: c.Out0 != ""}, wd)
 		c.Hang, c.Err, c.Status = hang, r.Err, r.Status
 		c.Entries = r.Entries
 		c.Probes = map[string]*Probe{}
@@ -875,7 +961,7 @@ func main() {
 		case "worker":
 			workerMain()
 			return
-		case "envdump", "argdump", "catfile", "failonce":
+		case "envdump", "argdump", "catfile", "failonce", "catattempt":
 			childMain(os.Args[1:])
 			return
 		}
@@ -984,6 +1070,8 @@ func main() {
 			c := &Case{Stream: "out", Gen: "random", OutB64: b64(o) }
 			if i%5 == 0 {
 				c.ErrB64 = b64([]byte("E" + randString(rng, []string{"r", "!", " "}, 4) + "\n"))
+			} else if i%3 == 0 {
+				c.Out0 = b64([]byte("first attempt " + randString(rng, []string{"a", "=", " ", "Z"}, 6) + "\n"))
 			}
 			add(c)
 		}
@@ -1017,6 +1105,24 @@ func main() {
 			if noBacktick(its) {
 				add(&Case{Stream: "subst", Gen: "random", Items: its})
 			}
+		}
+		// retry of a failed run through the real command
+		retryFixed := [][]Item{
+			{{Kind: "q", Value: "hello world"}},
+			{{Kind: "q", Value: "a b"}, {Kind: "w", Value: "c"}, {Kind: "q", Value: "d e"}},
+			{{Kind: "q", Value: ""}, {Kind: "nw", Name: "T", Value: "${C11VAR}"}, {Kind: "q", Value: "x ${C11VAR}"}},
+			{{Kind: "nq", Name: "N", Value: "p q"}, {Kind: "q", Value: "say \"hi\" now"}},
+		}
+		for _, it := range retryFixed {
+			add(&Case{Stream: "retrycmd", Gen: "fixed", Items: it})
+		}
+		for i := pick(2, 60); i > 0; {
+			it := genItems(rng, true, 3)
+			if !noSubst(it) || strings.ContainsAny(render(it), "\n\r") {
+				continue
+			}
+			add(&Case{Stream: "retrycmd", Gen: "random", Items: it})
+			i--
 		}
 		// restart of a running DAG
 		restartFixed := [][]Item{
